@@ -85,6 +85,8 @@ class Simulator:
         "thorough": dict(runs=10000, chunk=100, wall_cap=900, det_sample=1000),
     }
     run_watchdog_s = 120
+    recursion_headroom = 900
+    crash_rule = ""               # rule id charged when the code under test raises unexpectedly
     prepared_state = None          # JSON-able; handed to the fresh interpreter of the self-test
     expected_probes: List[str] = []
 
@@ -107,9 +109,55 @@ class Simulator:
         return {}
 
 
+def _raised_in_code_under_test(e: BaseException) -> bool:
+    """True if the innermost frame of the traceback lies in the tree under test."""
+    tb = e.__traceback__
+    last = None
+    while tb is not None:
+        last = tb
+        tb = tb.tb_next
+    if last is None:
+        return False
+    fn = os.path.realpath(last.tb_frame.f_code.co_filename)
+    if fn.startswith(os.path.realpath(os.path.join(REPO_DIR, "src")) + os.sep):
+        return True
+    # a RecursionError surfaces wherever the limit strikes: look at the whole stack
+    if isinstance(e, RecursionError):
+        tb = e.__traceback__
+        n = 0
+        while tb is not None:
+            if os.path.realpath(tb.tb_frame.f_code.co_filename).startswith(
+                    os.path.realpath(os.path.join(REPO_DIR, "src")) + os.sep):
+                n += 1
+            tb = tb.tb_next
+        return n > 20
+    return False
+
+
+def _stack_depth() -> int:
+    f = sys._getframe()
+    n = 0
+    while f is not None:
+        n += 1
+        f = f.f_back
+    return n
+
+
 def run_one(sim: Simulator, tape: Tape) -> RunResult:
     trace: List[str] = []
     stats: collections.Counter = collections.Counter()
+    # A RecursionError inside the code under test must strike at the same nesting depth whether
+    # the run executes in a pool worker, in the parent or in a fresh interpreter: make the limit
+    # relative to the depth of this frame.
+    old_limit = sys.getrecursionlimit()
+    sys.setrecursionlimit(_stack_depth() + sim.recursion_headroom)
+    try:
+        return _run_one(sim, tape, trace, stats)
+    finally:
+        sys.setrecursionlimit(old_limit)
+
+
+def _run_one(sim: Simulator, tape: Tape, trace, stats) -> RunResult:
     try:
         nontrivial, steps, sim_time = sim.execute(tape, trace, stats)
         res = RunResult("OK", trace=trace, stats=stats, nontrivial=nontrivial, steps=steps,
@@ -121,6 +169,17 @@ def run_one(sim: Simulator, tape: Tape) -> RunResult:
     except BaseException as e:  # noqa: BLE001 - the harness must never die silently
         if isinstance(e, (KeyboardInterrupt, SystemExit)):
             raise
+        if sim.crash_rule and _raised_in_code_under_test(e):
+            # the code under test raised at a point where the simulator expects no exception:
+            # that is a verdict on the code (an operation the property covers blew up), not on
+            # the harness - but it is classed apart so that it is easy to triage.
+            msg = f"unexpected {type(e).__name__} from the code under test: {e}"[:600]
+            trace.append(f"VIOLATION {sim.crash_rule} [unexpected-{type(e).__name__}] {msg}")
+            res = RunResult("VIOLATION", rule=sim.crash_rule, sig=f"unexpected-{type(e).__name__}",
+                            message=msg + " | " + "".join(traceback.format_tb(e.__traceback__)[-3:])[-700:],
+                            trace=trace, stats=stats, nontrivial=True)
+            res.tape = list(tape.log)
+            return res
         res = RunResult("HARNESS", rule="HARNESS", sig=type(e).__name__,
                         message="".join(traceback.format_exception(type(e), e, e.__traceback__))[-4000:],
                         trace=trace, stats=stats)
